@@ -18,5 +18,6 @@ CONSTANTS
   OblHonest = FALSE
   AllowXA = FALSE
   OblXATruthful = TRUE
+  OblXAPhaseOrder = TRUE
 INVARIANTS TypeOK ATAtomicRollback TCCAtomic NoDirtyGlobalWrite RollbackPossible
 CHECK_DEADLOCK FALSE
